@@ -356,6 +356,37 @@ func (m *MonSwaps) checkPrice(s *Sim, eb *ExecBlock, pool ammtypes.Pool, se *swa
 			}
 			s.Stats.Probe("swap_checked_unequal_weight")
 		}
+		// Fee-aware bound for swaps that belong to a user's request: the pool's swap fee is
+		// deducted from the input before the formula. The fee actually applied is at least
+		// poolFee x 1/2 (two-hop routing charges max(largest fee, half the sum), spread pro rata)
+		// x (1 - 0.3) (largest membership-tier discount), so the payout may not exceed the formula
+		// evaluated on in x (1 - 0.35 poolFee). Float arithmetic with the same allowances as above.
+		if fee := pool.PoolParams.SwapFee; se.used && !fee.IsNil() && fee.IsPositive() {
+			f, _ := fee.Float64()
+			flb := f * 0.5 * 0.7
+			bi, _ := new(big.Float).SetInt(bigOf(bin)).Float64()
+			bo, _ := new(big.Float).SetInt(bigOf(bout)).Float64()
+			ai, _ := new(big.Float).SetInt(bigOf(se.in.Amount)).Float64()
+			ao, _ := new(big.Float).SetInt(bigOf(se.out.Amount)).Float64()
+			wi, _ := new(big.Float).SetInt(bigOf(win)).Float64()
+			wo, _ := new(big.Float).SetInt(bigOf(wout)).Float64()
+			if !se.exactOut {
+				aiEff := ai * (1 - flb)
+				bound := bo * (1 - math.Pow(bi/(bi+aiEff), wi/wo))
+				allow := bo*1e-8 + 1 + bound*1e-12
+				if ao > bound+allow {
+					s.Violate("C03", "out_exceeds_formula_after_minimum_fee", culprit, "%s weights %s/%s, pool fee %s: paid out %.0f, the formula on the input less the smallest fee any discount and routing rule allows (%.6f%%) gives at most %.3f (+%.3f allowance)", inst, win, wout, fee, ao, flb*100, bound, allow)
+				}
+			} else if ao < bo {
+				pw := math.Pow(bo/(bo-ao), wo/wi)
+				bound := bi * (pw - 1) / (1 - flb)
+				allow := bi*pw*1e-8 + 1 + bound*1e-12
+				if ai < bound-allow {
+					s.Violate("C03", "in_below_formula_after_minimum_fee", culprit, "%s weights %s/%s, pool fee %s (exact-out): charged %.0f, the formula plus the smallest fee any discount and routing rule allows (%.6f%%) requires at least %.3f (-%.3f allowance)", inst, win, wout, fee, ai, flb*100, bound, allow)
+				}
+			}
+			s.Stats.Probe("swap_checked_fee_aware")
+		}
 		return
 	}
 	// oracle pool: value out (at oracle prices in force) never exceeds value in
